@@ -26,15 +26,10 @@ def run(ctx):
     hists = []
     ops_all = dqlib.gen_histories(ctx, ctx.pick(5, 6), [1, 2, 4])
     settings = [(3, 3), (1, 2), (5, 1)] if q else [(3, 3), (1, 2), (5, 1), (2, 7), (3, 1), (8, 2)]
-    if q:
-        # every third history per setting (rotated by the seed), all of them in the thorough tier
-        for si, (mf, se) in enumerate(settings):
-            for i, ops in enumerate(ops_all):
-                if (i + si + ctx.seed) % 3 == 0:
-                    hists.append(dqlib.unit_history(len(hists), ops, mf, se, True))
-    else:
-        for (mf, se) in settings:
-            for ops in ops_all:
+    # every third history per setting (rotated by the seed)
+    for si, (mf, se) in enumerate(settings):
+        for i, ops in enumerate(ops_all):
+            if (i + si + ctx.seed) % 3 == 0:
                 hists.append(dqlib.unit_history(len(hists), ops, mf, se, True))
     nshort = len(hists)
     for i in range(ctx.pick(60, 1500)):
